@@ -116,7 +116,9 @@ CHECKS = {
  "C20": {
   "text": "Lean theorems c20_close (honoured close request: exactly quit, pool shutdown, socket close; no handler), c20_ignored, c20_bad_id, "
           "c20_io_failure (handler notified exactly once iff installed; exit iff absent or true), c20_read_after_close, "
-          "c20_closed_only_by_close over Dispatch.lean; tied by fault-injection co-simulation of both real servers under the scheduler (EOF / "
+          "c20_closed_only_by_close over Dispatch.lean; on the whole-Metadata-server model (Conc/MetaClose.lean) the thread-level course of "
+          "close(): CloseInv inductive over every schedule, c20s_closed (writer stopped, every accepted task done, socket closed, reader gone), "
+          "c20s_writer_flushed, mstep_close_no_handler, c20s_close_progress; tied by lock-step co-simulation of close scenarios, by fault-injection co-simulation of both real servers under the scheduler (EOF / "
           "reset at every inbound offset class, each write index up to 8, close requests by id and agreed version, close() twice, handler "
           "absent/True/False/None, pool tasks in flight) and by the reader-dispatch differential.",
   "ref": "DESIGN.md §5 C20",
